@@ -15,7 +15,10 @@
       follows the colon on the same line is the one-line suite (`if f is not None: x`).
       Everything outside the emitted subset FAILS CLOSED as `LBad`: tabs in the indentation,
       comments, backslash outside a string, a newline inside brackets, try / with / class,
-      a carriage return, non-ASCII or control characters outside a string, unbalanced
+      a raw carriage return (CPython reads it as a line end: outside a literal it would start a
+      new line, inside one it leaves the literal unterminated; directly after a backslash inside
+      a literal it is a line continuation like backslash-newline and is accepted), non-ASCII or
+      control characters outside a string, unbalanced
       brackets, an unterminated string, an empty statement, a header keyword that is not the
       first word of the line, text after break / continue.
 
@@ -207,7 +210,7 @@ Definition step_line (l : lstate) (c : N) : lstate :=
       else if c =? 92 then set_mode (MEsc dq) l
       else if c =? quote_of dq then set_mode MCode l
       else l
-  | MEsc dq => set_mode (MStr dq) l                          (* escape pair: any character *)
+  | MEsc dq => set_mode (MStr dq) l                          (* escape pair: any character, also CR (continuation) *)
   end.
 
 Definition is_esc (m : smode) : bool := match m with MEsc _ => true | _ => false end.
